@@ -37,7 +37,8 @@ CONSTANTS
   \*    body   : [service -> set of subsets of {"command","args","env"}],
   \*    expk   : [service -> set of expose kind names],
   \*    counts : set of replica counts,
-  \*    quants : [profile -> sequence of quantity families]]   (see Families below)
+  \*    quants : [profile -> sequence of quantity families],   (see Families below)
+  \*    samples: <<>> (the slice is enumerated exhaustively) or a sequence of random tuples (it is sampled)]
   \* The document space is, per slice, the full product of the choices (DocsFor); Init ranges over all slices.
   Slices
 
@@ -48,11 +49,13 @@ vars == <<doc, ord, out>>
 (* Names.  TLC cannot order strings, so the sort order of every name used  *)
 (* is fixed here; the universe is listed in Go's string order.             *)
 (***************************************************************************)
-NameUniverse == <<"api", "db", "east", "large", "north", "small", "web", "west">>
-Rank(n) == CHOOSE i \in 1..Len(NameUniverse) : NameUniverse[i] = n
-SortedNames(S) == SelectSeq(NameUniverse, LAMBDA n : n \in S)
+\* every name and attribute key the generated documents use, in Go's string order; a document carries its own
+\* order (d.order): documents abstracted from files (harness: vh sdl abstract) bring the order of their own names
+NameUniverse == <<"api", "arch", "class", "db", "east", "large", "north", "region", "small", "tier", "web", "west", "zone">>
+Rank(d, n) == IF \E i \in 1..Len(d.order) : d.order[i] = n THEN CHOOSE i \in 1..Len(d.order) : d.order[i] = n ELSE 0
+SortedNames(d, S) == SelectSeq(d.order, LAMBDA n : n \in S)
 SumSeq(s) == LET F[i \in 0..Len(s)] == IF i = 0 THEN 0 ELSE F[i - 1] + s[i] IN F[Len(s)]
-WalkSeq(S, order) == IF Walk = "sorted" THEN SortedNames(S) ELSE SelectSeq(order, LAMBDA n : n \in S)
+WalkSeq(d, S, order) == IF Walk = "sorted" THEN SortedNames(d, S) ELSE SelectSeq(order, LAMBDA n : n \in S)
 
 (***************************************************************************)
 (* Quantities.                                                             *)
@@ -173,7 +176,8 @@ MkDoc(svcs, profs, places, body, expk, assign, deploy, cnt, quant) ==
                                   LAMBDA sp : sp[2] \in deploy[sp[1]])
                    IN [k \in 1..Len(pairs) |->
                         [ service |-> pairs[k][1], placement |-> pairs[k][2], profile |-> assign[pairs[k][1]],
-                          count |-> cnt[pairs[k][1]] + (Rank(pairs[k][2]) % 2) ]] ]
+                          count |-> cnt[pairs[k][1]] + (IF pairs[k][2] = places[1] THEN 1 ELSE 0) ]],
+    order      |-> NameUniverse ]
 
 \* all functions f on D with f[x] \in Choice[x]
 FuncsBy(D, Choice) == {f \in [D -> UNION {Choice[x] : x \in D}] : \A x \in D : f[x] \in Choice[x]}
@@ -206,7 +210,7 @@ QuantityAt(fams, k) ==
   LET i == CHOOSE x \in 1..Len(fams) : FamOffset(fams, x) < k /\ k <= FamOffset(fams, x + 1)
   IN FamAt(fams[i], k - FamOffset(fams, i))
 
-DocsFor(sl) ==
+ExhaustiveDocs(sl) ==
   LET SS == Range(sl.svcs) PS == Range(sl.profs) LS == Range(sl.places)
       p1 == sl.profs[1]
       p2 == sl.profs[Len(sl.profs)]
@@ -220,6 +224,34 @@ DocsFor(sl) ==
       assign \in [SS -> PS],
       deploy \in [SS -> (SUBSET LS) \ {{}}],
       cnt    \in [SS -> sl.counts] }
+
+(***************************************************************************)
+(* A slice too large to enumerate is SAMPLED: sl.samples is a sequence of  *)
+(* tuples of 20 random naturals (drawn by the check from VERIF_SEED); each *)
+(* tuple picks one element of every choice set (index = number modulo the  *)
+(* size of the set): numbers 4i-3..4i choose body, expose kind, profile    *)
+(* and placements of the i-th service, 13..15 the counts, 16 and 17 the    *)
+(* quantities.                                                             *)
+(***************************************************************************)
+Pick(choices, r) == LET q == SetToSeq(choices) IN q[(r % Len(q)) + 1]
+SampledDocs(sl) ==
+  LET SS == Range(sl.svcs) PS == Range(sl.profs) LS == Range(sl.places)
+      p1 == sl.profs[1]
+      p2 == sl.profs[Len(sl.profs)]
+      Idx(s) == CHOOSE i \in 1..Len(sl.svcs) : sl.svcs[i] = s
+  IN
+  { LET r == sl.samples[j] IN
+    MkDoc(sl.svcs, sl.profs, sl.places,
+          [s \in SS |-> Pick(sl.body[s], r[4 * Idx(s) - 3])],
+          [s \in SS |-> Pick(sl.expk[s], r[4 * Idx(s) - 2])],
+          [s \in SS |-> Pick(PS, r[4 * Idx(s) - 1])],
+          [s \in SS |-> Pick((SUBSET LS) \ {{}}, r[4 * Idx(s)])],
+          [s \in SS |-> Pick(sl.counts, r[12 + Idx(s)])],
+          [c \in PS |-> IF c = p1 THEN QuantityAt(sl.quants[p1], (r[16] % FamTotal(sl.quants[p1])) + 1)
+                                  ELSE QuantityAt(sl.quants[p2], (r[17] % FamTotal(sl.quants[p2])) + 1)]) :
+    j \in 1..Len(sl.samples) }
+
+DocsFor(sl) == IF sl.samples = <<>> THEN ExhaustiveDocs(sl) ELSE SampledDocs(sl)
 
 (***************************************************************************)
 (* Look-ups on a document.                                                 *)
@@ -253,15 +285,15 @@ ExposeEntries(e) ==
 ExposeUnsorted(svc) == FlattenSeq([i \in 1..Len(svc.expose) |-> ExposeEntries(svc.expose[i])])
 
 \* sdl/v2.go: sort by (service, port, proto, global first)
-ExposeLess(a, b) ==
+ExposeLess(d, a, b) ==
   IF a.service # b.service THEN
        \* "" sorts before every name
-       IF a.service = "" THEN TRUE ELSE IF b.service = "" THEN FALSE ELSE Rank(a.service) < Rank(b.service)
+       IF a.service = "" THEN TRUE ELSE IF b.service = "" THEN FALSE ELSE Rank(d, a.service) < Rank(d, b.service)
   ELSE IF a.port # b.port THEN a.port < b.port
   ELSE IF a.proto # b.proto THEN a.proto = "TCP"          \* "TCP" < "UDP"
   ELSE IF a.global # b.global THEN a.global
   ELSE FALSE
-ExposeOut(svc) == SortSeq(ExposeUnsorted(svc), ExposeLess)
+ExposeOut(d, svc) == SortSeq(ExposeUnsorted(svc), LAMBDA a, b : ExposeLess(d, a, b))
 
 EndpointKind(x) == IF IsIngress(x) THEN "SHARED_HTTP" ELSE "RANDOM_PORT"
 EndpointsOf(svc) ==
@@ -270,32 +302,30 @@ EndpointsOf(svc) ==
 
 CpuAttrs(c) == IF c.cpuArch = "" THEN <<>> ELSE << <<"arch", c.cpuArch>> >>
 
-Units(c) == [cpu |-> CpuMilli(c.cpu), cpuAttrs |-> CpuAttrs(c), mem |-> Bytes(c.mem), storage |-> Bytes(c.storage),
-             storageAttrs |-> c.storageAttrs]
+SortAttrs(d, as) == SortSeq(as, LAMBDA a, b : Rank(d, a[1]) < Rank(d, b[1]))
+Units(d, c) == [cpu |-> CpuMilli(c.cpu), cpuAttrs |-> CpuAttrs(c), mem |-> Bytes(c.mem), storage |-> Bytes(c.storage),
+                storageAttrs |-> SortAttrs(d, c.storageAttrs)]        \* attributes are a mapping: sorted by key
 
 GroupResource(d, x) ==
-  LET c == Prof(d, x.profile) pr == Pricing(d, x.placement, x.profile) u == Units(c) IN
+  LET c == Prof(d, x.profile) pr == Pricing(d, x.placement, x.profile) u == Units(d, c) IN
   [cpu |-> u.cpu, cpuAttrs |-> u.cpuAttrs, mem |-> u.mem, storage |-> u.storage, storageAttrs |-> u.storageAttrs,
    count |-> x.count, price |-> [denom |-> pr.denom, amount |-> pr.amount],
    endpoints |-> EndpointsOf(Svc(d, x.service))]
 
-\* attribute keys are not in the name universe: they are sorted by the table below
-AttrKeyRank(k) == CASE k = "arch" -> 1 [] k = "class" -> 2 [] k = "region" -> 3 [] k = "tier" -> 4 [] k = "zone" -> 5
-SortAttrs(as) == SortSeq(as, LAMBDA a, b : AttrKeyRank(a[1]) < AttrKeyRank(b[1]))
 
 Groups(d, o) ==
-  LET places == WalkSeq(UsedPlaces(d), o.place) IN
+  LET places == WalkSeq(d, UsedPlaces(d), o.place) IN
   [gi \in 1..Len(places) |->
      LET p == places[gi]
-         svcs == SelectSeq(WalkSeq(DeployedSvcs(d), o.svc), LAMBDA s : HasDep(d, s, p))
+         svcs == SelectSeq(WalkSeq(d, DeployedSvcs(d), o.svc), LAMBDA s : HasDep(d, s, p))
      IN [ name      |-> p,
-          attrs     |-> SortAttrs(Place(d, p).attrs),
+          attrs     |-> SortAttrs(d, Place(d, p).attrs),
           allOf     |-> Place(d, p).allOf,
           anyOf     |-> Place(d, p).anyOf,
           resources |-> [ri \in 1..Len(svcs) |-> GroupResource(d, Dep(d, svcs[ri], p))] ]]
 
 ManifestService(d, x) ==
-  LET svc == Svc(d, x.service) u == Units(Prof(d, x.profile)) IN
+  LET svc == Svc(d, x.service) u == Units(d, Prof(d, x.profile)) IN
   [ name    |-> svc.name,
     image   |-> svc.image,
     command |-> IF Impl = "asfound" THEN <<>> ELSE svc.command,
@@ -303,13 +333,13 @@ ManifestService(d, x) ==
     env     |-> svc.env,
     cpu |-> u.cpu, cpuAttrs |-> u.cpuAttrs, mem |-> u.mem, storage |-> u.storage, storageAttrs |-> u.storageAttrs,
     count   |-> x.count,
-    expose  |-> ExposeOut(svc) ]
+    expose  |-> ExposeOut(d, svc) ]
 
 Manifest(d, o) ==
-  LET places == WalkSeq(UsedPlaces(d), o.place) IN
+  LET places == WalkSeq(d, UsedPlaces(d), o.place) IN
   [gi \in 1..Len(places) |->
      LET p == places[gi]
-         svcs == SelectSeq(WalkSeq(DeployedSvcs(d), o.svc), LAMBDA s : HasDep(d, s, p))
+         svcs == SelectSeq(WalkSeq(d, DeployedSvcs(d), o.svc), LAMBDA s : HasDep(d, s, p))
      IN [ name |-> p, services |-> [si \in 1..Len(svcs) |-> ManifestService(d, Dep(d, svcs[si], p))] ]]
 
 (***************************************************************************)
@@ -338,8 +368,11 @@ Valid(d) ==
   /\ Len(d.deployment) > 0
   /\ \E k \in 1..Len(AllExposeEntries(d)) : AllExposeEntries(d)[k].global
   /\ NoDup(AllHosts(d))
+  /\ \A k \in 1..Len(AllExposeEntries(d)) : AllExposeEntries(d)[k].port # 0
+  /\ \A s \in Range(d.services) : \A e \in Range(s.expose) : e.proto \in {"", "tcp", "udp", "TCP", "UDP", "Tcp", "Udp"}
   /\ \A x \in Deps(d) :
-       LET c == Prof(d, x.profile) IN
+       LET c == Prof(d, x.profile) pr == Pricing(d, x.placement, x.profile) IN
+       /\ pr.denom = "uakt" /\ pr.amount \in 1..10000000
        /\ x.count \in 1..50
        /\ CpuMilli(c.cpu) \in 10..10000
        /\ BigLe([mi |-> 1, b |-> 0], Bytes(c.mem)) /\ BigLe(Bytes(c.mem), [mi |-> 16384, b |-> 0])
@@ -381,7 +414,9 @@ DeclaredEndpoints(svc) ==
   [http   |-> Cardinality({i \in 1..Len(ex) : ex[i].global /\ ex[i].proto = "TCP" /\ ExtPort(ex[i].port, ex[i].as) = 80}),
    random |-> Cardinality({i \in 1..Len(ex) : ex[i].global /\ ~(ex[i].proto = "TCP" /\ ExtPort(ex[i].port, ex[i].as) = 80)}),
    n      |-> Cardinality({i \in 1..Len(ex) : ex[i].global})]
-ResKey(r) == [cpu |-> r.cpu, cpuAttrs |-> r.cpuAttrs, mem |-> r.mem, storage |-> r.storage, storageAttrs |-> r.storageAttrs]
+\* attributes are compared as mappings (sorted by key on both sides)
+ResKey(d, r) == [cpu |-> r.cpu, cpuAttrs |-> SortAttrs(d, r.cpuAttrs), mem |-> r.mem, storage |-> r.storage,
+                 storageAttrs |-> SortAttrs(d, r.storageAttrs)]
 
 \* clause names are "<declared field>@<output>"
 ServiceFailures(d, o, x) ==
@@ -389,7 +424,7 @@ ServiceFailures(d, o, x) ==
   IF Len(mg) # 1 THEN {"group@manifest"} ELSE
   LET ms == SelectSeq(mg[1].services, LAMBDA s : s.name = x.service) IN
   IF Len(ms) # 1 THEN {"service@manifest"} ELSE
-  LET m == ms[1] svc == Svc(d, x.service) u == Units(Prof(d, x.profile)) IN
+  LET m == ms[1] svc == Svc(d, x.service) u == Units(d, Prof(d, x.profile)) IN
        (IF m.image = svc.image THEN {} ELSE {"image@manifest"})
   \cup (IF m.command = svc.command THEN {} ELSE {"command@manifest"})
   \cup (IF m.args = svc.args THEN {} ELSE {"args@manifest"})
@@ -398,7 +433,8 @@ ServiceFailures(d, o, x) ==
   \cup (IF m.cpu = u.cpu THEN {} ELSE {"cpu@manifest"})
   \cup (IF m.mem = u.mem THEN {} ELSE {"memory@manifest"})
   \cup (IF m.storage = u.storage THEN {} ELSE {"storage@manifest"})
-  \cup (IF m.cpuAttrs = u.cpuAttrs /\ m.storageAttrs = u.storageAttrs THEN {} ELSE {"resource-attributes@manifest"})
+  \cup (IF ResKey(d, m).cpuAttrs = u.cpuAttrs /\ ResKey(d, m).storageAttrs = u.storageAttrs
+        THEN {} ELSE {"resource-attributes@manifest"})
   \cup (IF SameBag(m.expose, DeclaredExpose(svc)) THEN {} ELSE {"expose@manifest"})
 
 GroupFailures(d, o, p) ==
@@ -408,10 +444,10 @@ GroupFailures(d, o, p) ==
       xs == SelectSeq(d.deployment, LAMBDA x : x.placement = p)
       want == [i \in 1..Len(xs) |->
                 LET x == xs[i] pr == Pricing(d, p, x.profile) IN
-                [res |-> ResKey(Units(Prof(d, x.profile))), count |-> x.count,
+                [res |-> ResKey(d, Units(d, Prof(d, x.profile))), count |-> x.count,
                  price |-> [denom |-> pr.denom, amount |-> pr.amount],
                  ep |-> DeclaredEndpoints(Svc(d, x.service))]]
-      got == [i \in 1..Len(rs) |-> [res |-> ResKey(rs[i]), count |-> rs[i].count, price |-> rs[i].price,
+      got == [i \in 1..Len(rs) |-> [res |-> ResKey(d, rs[i]), count |-> rs[i].count, price |-> rs[i].price,
                                     ep |-> EpCounts(rs[i].endpoints)]]
       Bad(f(_)) == ~SameBag(MapSeq(got, f), MapSeq(want, f))
       fields ==
@@ -468,8 +504,8 @@ ManifestMatch(m, g) ==
 (* The machine.                                                            *)
 (***************************************************************************)
 Perms(s) == {p \in [1..Len(s) -> Range(s)] : \A i, j \in 1..Len(s) : i # j => p[i] # p[j]}
-Orders(d) == [svc : Perms(SortedNames(SvcNames(d))), place : Perms(SortedNames({d.placement[i].name : i \in 1..Len(d.placement)}))]
-CanonOrder(d) == [svc |-> SortedNames(SvcNames(d)), place |-> SortedNames({d.placement[i].name : i \in 1..Len(d.placement)})]
+Orders(d) == [svc : Perms(SortedNames(d, SvcNames(d))), place : Perms(SortedNames(d, {d.placement[i].name : i \in 1..Len(d.placement)}))]
+CanonOrder(d) == [svc |-> SortedNames(d, SvcNames(d)), place |-> SortedNames(d, {d.placement[i].name : i \in 1..Len(d.placement)})]
 
 Init == /\ \E i \in 1..Len(Slices) : doc \in DocsFor(Slices[i])
         /\ ord = CanonOrder(doc) /\ out = NoOut
@@ -478,7 +514,13 @@ Init == /\ \E i \in 1..Len(Slices) : doc \in DocsFor(Slices[i])
 Run == out' = Out(doc, ord) /\ UNCHANGED <<doc, ord>>
 
 \* the same document with its mapping keys in another order (and/or another process with another map seed)
-Reorder == out.state # "none" /\ ord' \in Orders(doc) \ {ord} /\ UNCHANGED <<doc, out>>
+\* (one adjacent transposition in one mapping per step: every order stays reachable, the branching stays small)
+SwapAt(q, i) == [k \in 1..Len(q) |-> IF k = i THEN q[i + 1] ELSE IF k = i + 1 THEN q[i] ELSE q[k]]
+Reorder ==
+  /\ out.state # "none"
+  /\ \/ \E i \in 1..(Len(ord.svc) - 1) : ord' = [ord EXCEPT !.svc = SwapAt(ord.svc, i)]
+     \/ \E i \in 1..(Len(ord.place) - 1) : ord' = [ord EXCEPT !.place = SwapAt(ord.place, i)]
+  /\ UNCHANGED <<doc, out>>
 
 Next == Run \/ Reorder
 Spec == Init /\ [][Next]_vars
